@@ -236,6 +236,21 @@ def status_idx():
                 acc=HV._access_idx)
 
 
+def code_layout():
+    """feature groups of a host row *as the code lays them out* (C09 checks them against the
+    documentation; every other property only needs to find the features)"""
+    HV = m_hv.HostVector
+    return dict(
+        subnet=list(range(HV._subnet_address_idx, HV._host_address_idx)),
+        host=list(range(HV._host_address_idx, HV._compromised_idx)),
+        comp=[HV._compromised_idx], reach=[HV._reachable_idx], disc=[HV._discovered_idx],
+        value=[HV._value_idx], dvalue=[HV._discovery_value_idx], acc=[HV._access_idx],
+        os=list(range(HV._os_start_idx, HV._service_start_idx)),
+        srv=list(range(HV._service_start_idx, HV._process_start_idx)),
+        prc=list(range(HV._process_start_idx, HV.state_size)),
+        size=HV.state_size)
+
+
 def symbolic_state(w, state, tag="", constrain_domain=True):
     """Overwrite the four status cells of every host row of a real State with source values.
     Returns {addr: dict(comp, reach, disc, acc)} of raw inputs."""
